@@ -8,6 +8,8 @@ package c10
 import (
 	"fmt"
 	"os"
+	"runtime"
+	"strings"
 
 	"verifharness/core"
 )
@@ -18,6 +20,18 @@ func randomGroup(gen string) func(c *core.Case) {
 	return func(c *core.Case) {
 		w := genWorld(c.R, gen)
 		k := judge(c, w, gen)
+		if c.I%2000 == 0 && os.Getenv("C10_DEBUG") != "" {
+			var m runtime.MemStats
+			runtime.ReadMemStats(&m)
+			if b, err := os.ReadFile("/proc/self/status"); err == nil {
+				for _, l := range strings.Split(string(b), "\n") {
+					if strings.HasPrefix(l, "VmPeak") || strings.HasPrefix(l, "VmSize") || strings.HasPrefix(l, "VmRSS") || strings.HasPrefix(l, "VmHWM") {
+						fmt.Fprint(os.Stderr, strings.Join(strings.Fields(l), " "), "; ")
+					}
+				}
+			}
+			fmt.Fprintf(os.Stderr, "MEM case=%d heapAlloc=%dMB heapInuse=%dMB heapSys=%dMB sys=%dMB goroutines=%d numGC=%d\n", c.I, m.HeapAlloc>>20, m.HeapInuse>>20, m.HeapSys>>20, m.Sys>>20, runtime.NumGoroutine(), m.NumGC)
+		}
 		if k != nil && c.I < 2 {
 			c.Run.Sample(map[string]interface{}{"generator": gen, "case": c.I, "world": w.witness(), "kvm": summary(k)})
 		}
@@ -44,7 +58,13 @@ func Main() {
 			r.Extra("opcode_table_sweep", sweepTables())
 		}()
 	}
-	opts := core.Opts{Procs: 16, HangIsViolation: true, StallSec: 60, MemMB: 4096}
+	// GOMEMLIMIT: a child starts with about 2 GB of address space reserved by the Go runtime, so
+	// under the 4 GB ulimit the heap may grow to about 2 GB. Programs that copy megabytes in a
+	// loop produce garbage faster than a CPU-starved collector removes it (seen once in a
+	// thorough run on an overloaded machine: fatal "out of memory" in a trivial case, heap_sys
+	// 2.1 GB, while a replay of the same child range peaks at 99 MB). The soft limit makes the
+	// collector work harder instead of letting the heap reach the ulimit.
+	opts := core.Opts{Procs: 16, HangIsViolation: true, StallSec: 60, MemMB: 4096, Env: []string{"GOMEMLIMIT=1200MiB"}}
 	r.Cases("corpus", len(scenarios()), opts, corpusCase)
 	r.Cases("sweep", 256, opts, sweepCase)
 	r.Cases("recursion", r.N(16, 400), opts, recursionCase)
